@@ -24,6 +24,13 @@ static Plan gen_wfault(const std::string &prop, const std::string &tier, uint64_
 	bool hard = !sweep && d < (thorough ? 20 : 6);
 	size_t n = sweep ? r.below(12) : r.chance(1, 2) ? r.below(30) : draw_n(r);
 	gen_sorted_adds(p, r, n, r.chance(1, 2) ? 0 : 100);
+	// now and then one entry of 1.2 .. 3.6 MiB of incompressible bytes: a single write request of more than a megabyte
+	// (an implementation may split such a request; every piece is a call that can come back short or fail)
+	if (!sweep && r.chance(1, hard ? 4 : 25)) {
+		char t[64]; snprintf(t, sizeof t, "p%ds%d", 1200000 + (int)r.below(2400000), (int)r.below(1000));
+		p.op("add", { "xffff+c24xfe", t });
+		p.set("bigvalue", "1");
+	}
 	if (sweep) {
 		p.seti("pool", r.chance(1, 3) ? (long long)r.below(3) : -1);
 		p.op("sweep");
@@ -137,6 +144,7 @@ static RunResult exec_wfault(const Plan &p)
 	for (auto &f : faults) f.call %= span;
 
 	if (have_hard) {
+		if (p.gets("bigvalue", "") == "1") res.probes["hard-error-plan-with-megabyte-entry"]++;
 		hardf.call %= span;
 		std::vector<sim_wfault> fl = faults;
 		fl.push_back(hardf);
@@ -186,6 +194,7 @@ static RunResult exec_wfault(const Plan &p)
 		return res;
 	}
 
+	if (p.gets("bigvalue", "") == "1") res.probes["plan-with-megabyte-entry"]++;
 	compare(faults, std::to_string(faults.size()) + " seeded faults");
 	sim_wstats ws = g_tablelib_wstats;
 	res.nontrivial = ws.shorts >= 1 && ws.eintrs >= 1;
